@@ -27,8 +27,9 @@ ASSUMPTIONS = ["numeric token value = Python float(token) within 1e-12 relative 
                "numeric tolerance after write: 0.5e-6 + 1e-12*|x| (decimal rounding vs numpy round)",
                "one table row per line; blank/comment lines only before a block, between block name and loop_, after the "
                "labels, between blocks (never inside rows, never on the loop_ line)",
-               "cells excluded as outside the quantifier: STAR reserved words, tokens pandas reads as NaN/inf/bool, digit "
-               "groups with underscores, text columns whose tokens are all numeric"]
+               "cells excluded as outside the quantifier: the exact keyword loop_, data_* cells in ONE-column tables (ambiguous text), tokens pandas "
+               "reads as NaN/inf/bool, digit groups with underscores, text columns whose tokens are all numeric; other reserved-looking "
+               "words (data_001.mrc, save_x, global_, stop_) are ordinary text cells"]
 
 CLASSES = ["tables_relion", "tables_stopgap", "tables_multi", "tables_empty_last", "tables_rounding", "tables_text_heavy",
            "tables_unnumbered", "text_plain", "text_comments", "text_crlf", "text_tabs", "text_label_styles", "text_nofinalnl",
@@ -70,6 +71,8 @@ def frame_kinds(df):
                 return None
             if any(star.bad_text_token(v) for v in vals):
                 return None
+            if len(df.columns) == 1 and any(v.startswith("data_") for v in vals):
+                return None          # a one-column table whose cell looks like a block name is ambiguous STAR text
             if len(vals) and all(star.is_numeric_token(v) for v in vals):
                 return None
             kinds.append("text")
@@ -260,7 +263,7 @@ def setup(ctx):
 
 
 # ---- generators ---------------------------------------------------------------------------------
-TEXT_POOL = ['opticsGroup"A"', "tomo_2'bin4'.mrc", 'a"b', "it's", "x,y", "a;b", "k=v", "[1]", "(2)", "{3}", "50%", "a|b", "q?", "a&b", "~x", "a\\b", "<t>", "$1", "!x", "*", "a:b", "000012@/a/b.mrcs", "opticsGroup1", "TS_01/7", "Extract/job012/Tomograms/TS_3/1.mrc", "A", "B", "abc", "x1y2",
+TEXT_POOL = ["data_001.mrc", "data_", "data_particles", "save_x", "global_", "stop_", "loop_1", "LOOP_", 'opticsGroup"A"', "tomo_2'bin4'.mrc", 'a"b', "it's", "x,y", "a;b", "k=v", "[1]", "(2)", "{3}", "50%", "a|b", "q?", "a&b", "~x", "a\\b", "<t>", "$1", "!x", "*", "a:b", "000012@/a/b.mrcs", "opticsGroup1", "TS_01/7", "Extract/job012/Tomograms/TS_3/1.mrc", "A", "B", "abc", "x1y2",
              "tomo-7", "1.5x", "e5", "1e", "--3", "3.4.5", "file.name.ext", "12@stack", "K3", "+", "-", "..", "1,5", "0x1F"]
 REL_NAMES = ["rlnCoordinateX", "rlnCoordinateY", "rlnCoordinateZ", "rlnAngleRot", "rlnAngleTilt", "rlnAnglePsi", "rlnMicrographName",
              "rlnImageName", "rlnOriginX", "rlnOriginY", "rlnOriginZ", "rlnClassNumber", "rlnRandomSubset", "rlnCtfImage",
@@ -340,6 +343,10 @@ def gen_tables(rng, cls, big):
                     d[c][m] = rng.choice(bigvals, int(m.sum()))
             else:
                 d[c] = gen_float_col(rng, nrows, cls == "tables_rounding" or rng.random() < 0.3)
+        if ncols == 1:
+            for c in cols:
+                if isinstance(d[c], list):
+                    d[c] = [("x" + v) if v.startswith("data_") else v for v in d[c]]
         t = pd.DataFrame(d, columns=cols)
         if nrows == 0:
             t = pd.DataFrame({c: np.zeros(0) for c in cols}, columns=cols)
@@ -435,6 +442,8 @@ def gen_text(rng, cls):
                 else:
                     toks = ["%.6f" % v for v in vals]
                     cols.append(toks)
+        if ncols == 1:
+            cols = [[("x" + v) if v.startswith("data_") else v for v in c] for c in cols]
         rows = [[c[r] for c in cols] for r in range(nrows)]
         for r in rows:
             lead = sep() if deco and rng.random() < 0.5 else ""
